@@ -9,6 +9,8 @@ import (
 	"fmt"
 	"go/types"
 	"strings"
+
+	"golang.org/x/tools/go/ssa"
 )
 
 type fallthroughSSA struct{}
@@ -59,7 +61,7 @@ func (fr *frame) fmtArg(verb byte, flags string, a value) ([]value, bool) {
 	case bool, int, int8, int16, int32, int64, uint, uint8, uint16, uint32, uint64, uintptr, float32, float64:
 		if _, named := it.t.(*types.Named); named && (verb == 'v' || verb == 's') {
 			// may have a String method
-			if fr.i.prog.LookupMethod(it.t, nil, "String") != nil || fr.i.prog.LookupMethod(it.t, nil, "Error") != nil {
+			if fr.i.findMethod(it.t, "String") != nil || fr.i.findMethod(it.t, "Error") != nil {
 				return fr.fmtMethod(it)
 			}
 		}
@@ -107,7 +109,7 @@ func (fr *frame) fmtArg(verb byte, flags string, a value) ([]value, bool) {
 
 func (fr *frame) fmtMethod(it iface) ([]value, bool) {
 	for _, name := range []string{"Error", "String"} {
-		if m := fr.i.prog.LookupMethod(it.t, nil, name); m != nil && m.Signature.Params().Len() == 0 && m.Signature.Results().Len() == 1 {
+		if m := fr.i.findMethod(it.t, name); m != nil && m.Signature.Params().Len() == 0 && m.Signature.Results().Len() == 1 {
 			if p, ok := it.v.(*value); ok && p == nil {
 				return strBytes("<nil>"), true
 			}
@@ -255,4 +257,13 @@ func extErrorf(fr *frame, args []value) value {
 		return fallthroughSSA{}
 	}
 	return call(fr.i, fr, 0, errorsPkg.Func("New"), []value{normStr(out)})
+}
+
+// findMethod is LookupMethod without the panic for missing methods.
+func (i *interpreter) findMethod(t types.Type, name string) *ssa.Function {
+	sel := i.prog.MethodSets.MethodSet(t).Lookup(nil, name)
+	if sel == nil {
+		return nil
+	}
+	return i.prog.MethodValue(sel)
 }
